@@ -62,12 +62,9 @@ theorem register_exact (excl : Nat → Nat → Bool) (files : List (List Sym)) :
   have := registerFile_exact excl files.flatten []
   simpa using this
 
-/-- `DefineContext::exclusive` on the `pos` / `neg` identifier sets of two contexts
-    (`!self.pos.is_disjoint(&value.neg) || !self.neg.is_disjoint(&value.pos)`). -/
-def exclusiveSets (pos neg pos' neg' : List Nat) : Bool :=
-  pos.any (fun x => neg'.contains x) || neg.any (fun x => pos'.contains x)
-
-/-- … is symmetric: the hypothesis `hsym` of T1d holds for the code's relation. -/
+/-- `DefineContext::exclusive` (M-Register `exclusiveSets`, compared with the real method on generated
+    pos/neg sets by the `excl` lines of `hx order`) is symmetric: the hypothesis `hsym` of T1d holds for
+    the code's relation. -/
 theorem exclusiveSets_symm (pos neg pos' neg' : List Nat) :
     exclusiveSets pos neg pos' neg' = exclusiveSets pos' neg' pos neg := by
   unfold exclusiveSets
